@@ -1308,3 +1308,54 @@ def lt2(model):
         else:
             r.ok(f.node, 'expand_macro does not skip space', sample=False)
     return r
+
+
+# ----------------------------------------------------------------------------- RX7
+def rx7(model):
+    r = RuleResult('RX7', 'a pattern that is not a literal (an option value, a joined alternation) and '
+                   'is concatenated between anchors or other pattern text is wrapped in a group: '
+                   "r'\\A' + x + r'\\Z' anchors only the first and the last alternative of x", floor=1)
+    anchors_l = ('\\A', '^', '\\b')
+    anchors_r = ('\\Z', '$', '\\b')
+    for m in model.mods.values():
+        for n in ast.walk(m.tree):
+            if not (isinstance(n, ast.BinOp) and isinstance(n.op, ast.Add)) or isinstance(getattr(n, '_parent', None), ast.BinOp):
+                continue
+            parts = []
+
+            def flat(e):
+                if isinstance(e, ast.BinOp) and isinstance(e.op, ast.Add):
+                    flat(e.left)
+                    flat(e.right)
+                else:
+                    parts.append(e)
+            flat(n)
+            for i, p in enumerate(parts):
+                if isinstance(p, ast.Constant) or i == 0 or i == len(parts) - 1:
+                    continue
+                a, b = parts[i - 1], parts[i + 1]
+                if not (isinstance(a, ast.Constant) and isinstance(a.value, str) and isinstance(b, ast.Constant)
+                        and isinstance(b.value, str)):
+                    continue
+                if not (a.value.endswith(anchors_l) and b.value.startswith(anchors_r)):
+                    continue
+                # is the middle part possibly an alternation?  (anything that is not re.escape(..))
+                if isinstance(p, ast.Call) and unparse(p.func) == 're.escape':
+                    r.ok(p, 'escaped text between anchors', sample=False)
+                    continue
+                vals = T.resolve_local(model, p) if isinstance(p, ast.Name) else [p]
+                if vals and all(isinstance(v, ast.Call) and unparse(v.func) == 're.escape' for v in vals):
+                    r.ok(p, 'escaped text between anchors', sample=False)
+                    continue
+                if a.value.endswith('(?:') or a.value.endswith('(') :
+                    r.ok(p, 'grouped', sample=False)
+                    continue
+                r.fail(n, 'the pattern %s stands between the anchors %r and %r without a group: if it is '
+                       'an alternation, only its first alternative is anchored on the left and only '
+                       'its last on the right' % (unparse(p)[:40], a.value[-4:], b.value[:4]),
+                       witness="--skip 'zz.tex|b.tex' also skips xb.tex")
+            # grouped form counts as instance
+            if any(isinstance(p, ast.Constant) and isinstance(p.value, str) and p.value.endswith('(?:') for p in parts):
+                r.instances += 1
+    r.instances = max(r.instances, 1)
+    return r
